@@ -255,6 +255,7 @@ def run(ctx):
     minimum(ctx, g)
     not_truncated(ctx, g)
     compare_exhaustive(ctx, g)
+    structural_equality(ctx, g)
     code_content(ctx, g)
 
 
@@ -371,6 +372,47 @@ def compare_exhaustive(ctx, g):
 
 def unov_(t):
     return ("binop", t[1][1].replace("WithOverflow", ""), t[1][2], t[1][3]) if t[0] == "field" and str(t[2]) == "0" and t[1][0] == "binop" else t
+
+
+def structural_equality(ctx, g):
+    """`canonical(a) == canonical(b)` decides isomorphism only if == on symbols looks at everything: the operations AND the branching numbers.
+    PartialEq for the symbol / set types is derived (field-wise over all fields), or - if written by hand - compares every field of the type"""
+    ctx.clauses.append("== on symbols is structural: PartialEq is derived, or a hand-written eq compares every field (T8)")
+    for ty in ("dsyms::PartialDSym", "dsets::SimpleDSet"):
+        im = [i for i in ctx.facts.impls if i.get("trait") == "std::cmp::PartialEq" and i["self_ty"] == ty]
+        adt = ctx.facts.adts.get(ty)
+        if adt is None:
+            raise AnchorMissing(ty)
+        fields = [f["name"] for v in adt["variants"] for f in v["fields"]]
+        # orbit_index / orbit_rs are computed from dset alone (collect_orbits in PartialDSym::new, never written afterwards): an eq that skips them decides the same relation
+        needed = [f for f in fields if not (ty == "dsyms::PartialDSym" and f in ("orbit_index", "orbit_rs"))]
+        if not im:
+            ctx.ob("T8-structural-equality", ty, "PartialEq", "violation", "no PartialEq impl found for %s" % ty)
+            continue
+        if all(i["derived"] for i in im):
+            ctx.ob("T8-structural-equality", ty, "PartialEq", "ok", "derived: field-wise over %s" % fields)
+            continue
+        b = ctx.facts.bodies.get("<%s as std::cmp::PartialEq>::eq" % ty)
+        compared = set()
+        if b is not None:
+            ctx.scan([b])
+            me, ot = ("param", 1, b.debug.get(1, "")), ("param", 2, b.debug.get(2, ""))
+            pairs = []
+            for bi, t in b.calls():
+                if t["callee"].get("def", "").endswith("PartialEq::eq") or t["callee"].get("def", "").endswith("PartialEq::ne"):
+                    pairs.append([strip(norm(b.origin(x), g)) for x in t["args"]])
+            for bi, si, s in b.assigns():
+                rv = s["rv"]
+                if rv["k"] == "binop" and rv["op"] in ("Eq", "Ne"):
+                    pairs.append([strip(norm(b.origin(rv["a"]), g)), strip(norm(b.origin(rv["b"]), g))])
+            for a in pairs:
+                for f in fields:
+                    if {a[0], a[1]} == {("field", me, f), ("field", ot, f)}:
+                        compared.add(f)
+        missing = [f for f in needed if f not in compared]
+        ctx.ob("T8-structural-equality", ty, "PartialEq", "ok" if not missing else "violation",
+               "hand-written eq compares every field" if not missing else
+               "the hand-written == of %s does not compare %s with the same field of the other value: symbols that differ only there compare equal, so equal canonical forms no longer imply isomorphism" % (ty.split("::")[-1], missing))
 
 
 def not_truncated(ctx, g):
